@@ -340,6 +340,58 @@ Proof.
 Qed.
 Print Assumptions c01_dial_monitor_accepts_model.
 
+(* the QUIC transport's hole punch (server role of a simultaneous connect): a dial
+   for p towards address x returns only a connection that came from x AND is
+   authenticated as p; a different peer connecting from x is not handed to it *)
+Theorem c01_holepunch_only_p : forall x p accepted r,
+  hole_punch (x, p) accepted = DConn r -> r = p /\ accepted = (x, p).
+Proof.
+  intros x p [a q] r H. unfold hole_punch, hp_key_eqb in H. cbn [fst snd] in H.
+  destruct (a =? x)%N eqn:E1; [|discriminate]. destruct (q =? p)%N eqn:E2; [|discriminate].
+  cbn in H. inversion H; subst. apply N.eqb_eq in E1. apply N.eqb_eq in E2. subst. split; reflexivity.
+Qed.
+Print Assumptions c01_holepunch_only_p.
+
+Theorem c01_holepunch_monitor_accepts_model : forall kt idQ p w,
+  (0 <= p)%Z ->
+  let '(ok, rr) := match holepunch_model idQ p w with DErr => (0, 0) | DConn r => (1, Z.of_N r) end%Z in
+  monitor_holepunch [kt; idQ; p; w; ok; rr; rr] = [].
+Proof.
+  intros kt idQ p w Hp. destruct (holepunch_model idQ p w) as [|r] eqn:E; [reflexivity|].
+  unfold holepunch_model in E. apply c01_holepunch_only_p in E. destruct E as [-> _].
+  unfold monitor_holepunch. rewrite Z2N.id by exact Hp. cbn [Z.eqb negb]. rewrite !Z.eqb_refl. reflexivity.
+Qed.
+Print Assumptions c01_holepunch_monitor_accepts_model.
+
+(* the upgrader: in BOTH directions a named expected peer is enforced, the
+   reported peer is the one the remote proved, and an outbound upgrade needs a name *)
+Theorem c01_upgrade_expected_peer_enforced : forall inbound p remote r,
+  upgrade inbound p remote = DConn r ->
+  r = remote /\ (forall x, p = Some x -> x = remote) /\ (p = None -> inbound = true).
+Proof.
+  intros inbound p remote r H. unfold upgrade in H. destruct p as [x|].
+  - destruct (x =? remote)%N eqn:E; [|discriminate]. inversion H; subst. apply N.eqb_eq in E.
+    repeat split; auto. + intros y Hy. inversion Hy; subst. reflexivity. + intros Hn. discriminate.
+  - destruct inbound; [|discriminate]. inversion H; subst. repeat split; auto. intros y Hy. discriminate.
+Qed.
+Print Assumptions c01_upgrade_expected_peer_enforced.
+
+Theorem c01_upgrade_monitor_accepts_model : forall sec kt kind dirIn exp remote,
+  (0 <= remote)%Z -> (0 <= exp)%Z ->
+  let '(ok, rr) := match upgrade (zbool dirIn) (expect_of exp) (Z.to_N remote) with
+                   | DErr => (0, 0) | DConn r => (1, Z.of_N r) end%Z in
+  monitor_upgrade [sec; kt; kind; dirIn; exp; remote; ok; rr; rr] = [].
+Proof.
+  intros sec kt kind dirIn exp remote Hr He.
+  destruct (upgrade (zbool dirIn) (expect_of exp) (Z.to_N remote)) as [|r] eqn:E; [reflexivity|].
+  apply c01_upgrade_expected_peer_enforced in E. destruct E as [-> [Hx _]].
+  unfold monitor_upgrade. rewrite Z2N.id by exact Hr. cbn [Z.eqb negb]. rewrite !Z.eqb_refl. cbn [negb].
+  unfold expect_of in Hx. destruct (exp =? 0)%Z eqn:E0; [reflexivity|].
+  specialize (Hx _ eq_refl). cbn [negb andb].
+  assert (exp = remote) by (rewrite <- (Z2N.id exp He), Hx, Z2N.id; auto). subst. rewrite Z.eqb_refl. reflexivity.
+Qed.
+Print Assumptions c01_upgrade_monitor_accepts_model.
+
 (* ---- non-vacuity ---------------------------------------------------------------- *)
 Example honest_run_completes :
   let sc := mkSc (mkSide KA false false (Some KB) P0) (mkSide KB false false None P0) ENone None in
@@ -382,4 +434,11 @@ Proof. vm_compute. discriminate. Qed.
 
 (* the dial monitor rejects a connection to another peer handed to the caller *)
 Example monitor_rejects_wrong_peer_conn : monitor_case [4; 1; 2; 0; 3; 1; 3]%Z <> [].
+Proof. vm_compute. discriminate. Qed.
+
+(* the monitors reject: a hole punch for B that returns a connection authenticated as E;
+   an inbound upgrade that named B and completed with E *)
+Example monitor_rejects_holepunch_other_peer : monitor_case [6; 0; 3; 2; 0; 1; 3; 3]%Z <> [].
+Proof. vm_compute. discriminate. Qed.
+Example monitor_rejects_inbound_upgrade_unexpected_peer : monitor_case [7; 0; 0; 0; 1; 2; 3; 1; 3; 3]%Z <> [].
 Proof. vm_compute. discriminate. Qed.
